@@ -167,7 +167,7 @@ Proof.
                                              (forall m, m <> NMani -> lookup m s5 = lookup m s4))).
     2:{ rewrite <- Hstrs4. destruct (mem_sname x (mani_strs s4)) eqn:Emem.
         - cbn [must map]. apply walk_ok_nil; [now apply good_safe|]. split; [exact Hg4|]. split; [now apply mem_sname_in|reflexivity].
-        - eapply walk_ok_conseq; [|apply (mani_block_ok [x] [] s4 E E None Hg4)].
+        - eapply walk_ok_conseq; [|apply (mani_block_ok [x] [] None s4 E E None Hg4)].
           + cbn beta. intros s5 (Hg5 & Hstrs5 & _ & Ho5). split; [exact Hg5|]. split; [|exact Ho5].
             rewrite Hstrs5, in_apply_edit. right. now left.
           + intros y [<-|[]]. exact Hx4.
@@ -333,7 +333,7 @@ Proof.
   { eapply walk_ok_conseq with (Q := fun s' => Good s' E /\ s' = replay c2 s1).
     - intros s' (G & ->). fold s2 in G |- *. auto.
     - apply walk_ok_with_replay. unfold c2. destruct (mani_edits s1) eqn:Em.
-      + eapply walk_ok_conseq; [|apply (mani_block_ok [] [] s1 E E None G1)].
+      + eapply walk_ok_conseq; [|apply (mani_block_ok [] [] None s1 E E None G1)].
         * cbn beta. intros s' (G & _). exact G.
         * intros x [].
         * intros e. destruct G1 as [_ (_ & _ & _ & C)]. rewrite (C e).
@@ -363,7 +363,7 @@ Proof.
     intros s4' G4 Hstrs4 Hlog4. cbn [must map].
     apply walk_ok_must_cons; [now apply good_safe|apply exec_create_ok; now rewrite Hlog4|]. intros s5 E5.
     apply exec_create_inv in E5. destruct E5 as [N5 ->].
-    set (q := N.max (rec + 1) (max_ts (concat (mani_strs s4)))) in *. set (L := NLog q) in *. set (s5 := set L empty_file s4').
+    set (q := N.max (N.max (rec + 1) (max_ts (concat (mani_strs s4)))) (mani_L s4 + 1)) in *. set (L := NLog q) in *. set (s5 := set L empty_file s4').
     assert (Hu5 : upd_rel s4' s5 L (Some empty_file)) by (intros m _; unfold s5; now rewrite lookup_set).
     assert (Hw5 : wf s5) by (unfold s5; apply wf_set, G4).
     assert (G5 : Good s5 E).
